@@ -143,12 +143,22 @@ Proof.
   inversion Hs as [|x l Hx Hl]; subst. constructor; [now rewrite Er|]. now apply (IH ts).
 Qed.
 
+Lemma names_ok_no_nul : forall ss, stream_names_ok ss -> stream_has_nul ss = false.
+Proof.
+  induction ss as [|s tl IH]; intro H; [reflexivity|]. inversion H as [|x l Hx Hl]; subst.
+  unfold stream_has_nul. cbn [existsb]. fold (stream_has_nul tl). rewrite (IH Hl), orb_false_r.
+  unfold has_nul. destruct (s_name s) as [nm|]; [|reflexivity]. destruct Hx as [Hn _].
+  destruct (existsb (N.eqb 0) nm) eqn:E; [|reflexivity].
+  apply existsb_exists in E. destruct E as (b & Hb & Eb). apply N.eqb_eq in Eb. subst b. contradiction.
+Qed.
+
 (* THE FILE WITH ITS NAMES AS BYTES: for a stream without a NUL byte in a name (and without the
    literal name `*`), carrying the names through the RN block of every slice changes nothing *)
 Theorem file_rt_names_eq : forall refs rps ss, (1 <= rps)%nat -> stream_names_ok ss ->
   file_rt_names refs rps ss = file_rt refs rps ss.
 Proof.
-  intros refs rps ss Hk Hs. unfold file_rt_names, file_rt, file_rt_gen, file_write_gen.
+  intros refs rps ss Hk Hs. unfold file_rt_names. rewrite (names_ok_no_nul ss Hs), andb_false_r.
+  unfold file_rt, file_rt_gen, file_write_gen.
   destruct (convert_all refs ss) as [rs|] eqn:Ec; [|reflexivity].
   rewrite slices_write_names.
   destruct (slices_write_gen (list mrec) (fun st => st) (chunks rps rs)) as [f|] eqn:Ew; [|reflexivity].
